@@ -15,6 +15,8 @@
 (*     Delete (deletionState.Add), DeleteFinish (deletionState.Delete), SyncEffect of TreeSync      *)
 (*   IndexApply      headUpdater.process -> DiffManager.UpdateHeads (one queued entry)              *)
 (*   Restart         headSync.Close + new component: FillDiff from the head storage                 *)
+(*   RestartEdit     the same with a local change landing between the subscription and FillDiff's   *)
+(*                   read of the head storage (the order of headSync.Run matters)                   *)
 (*   RoundBegin      diffSyncer.Sync: GetResponsiblePeers, AcquireDrpcConn of the first peer        *)
 (*   RoundCheck      remote.DiffTypeCheck: HeadSync request for the top range, hash comparison      *)
 (*   RoundPush       onDiffError: the peer answered ErrSpaceMissing -> SpacePush (acl root + settings  *)
@@ -42,6 +44,7 @@ CONSTANTS Peers,        \* peer ids
                         \*   "NoFilter"       applyDiff does not filter the new ids by the deletion state
                         \*   "NoRemovedPush"  applyDiff drops the ids that only the local index has
                         \*   "NoObserver"     a changed entry is not always announced to the headUpdater
+                        \*   "FillBeforeSubscribe"  headSync.Run fills the index before it subscribes
 
 Ids     == Trees \cup Acl \cup Kv
 Special == Acl \cup Kv
@@ -171,6 +174,19 @@ Restart(p) ==
     /\ budget' = [budget EXCEPT !.rs = @ - 1]
     /\ Disturb /\ UNCHANGED <<store, online, space, rnd>>
 
+\* a local change lands while the space is being opened: headSync.Run subscribes to the head storage first
+\* (syncer.Run) and fills the index afterwards, so a write after FillDiff's read is announced to the new queue
+RestartEdit(p, i, c) ==
+    /\ budget.rs > 0 /\ budget.ed > 0 /\ rnd[p].st = "idle" /\ space[p]
+    /\ Live(p, i) /\ c \notin store[p][i].hd
+    /\ idx'   = [idx EXCEPT ![p] = Fill(p)]                  \* the read happened before the write
+    /\ phash' = [phash EXCEPT ![p] = Fill(p)]
+    /\ store' = [store EXCEPT ![p][i].hd = @ \cup {c}]
+    /\ pend'  = [pend EXCEPT ![p] = IF "FillBeforeSubscribe" \in Dev THEN <<>> ELSE <<Upd(i, store'[p][i])>>]
+    /\ tasks' = {t \in tasks : t.f # p}
+    /\ budget' = [budget EXCEPT !.rs = @ - 1, !.ed = @ - 1]
+    /\ Disturb /\ UNCHANGED <<online, space, rnd>>
+
 (* ------------------------------ the round ------------------------------ *)
 RoundBegin(p) ==
     /\ rnd[p].st = "idle" /\ space[p]
@@ -257,14 +273,15 @@ Flip(q) ==
 
 EnvNext == \E p \in Peers :
               \/ \E i \in Ids : Create(p, i) \/ Delete(p, i) \/ DeleteFinish(p, i) \/ \E c \in Changes : Edit(p, i, c)
-              \/ Restart(p) \/ Flip(p)
+              \/ Restart(p) \/ Flip(p) \/ \E i \in Ids, c \in Changes : RestartEdit(p, i, c)
+TreeSyncAny == \E t \in tasks : TreeSync(t)
 SysNext == \/ \E p \in Peers : IndexApply(p) \/ RoundBegin(p) \/ RoundCheck(p) \/ RoundPush(p) \/ RoundDiff(p) \/ RoundApply(p)
-           \/ \E t \in tasks : TreeSync(t)
+           \/ TreeSyncAny
 Next == EnvNext \/ SysNext
 
 Fairness == /\ \A p \in Peers : /\ WF_vars(IndexApply(p)) /\ WF_vars(RoundBegin(p)) /\ WF_vars(RoundCheck(p))
                                 /\ WF_vars(RoundDiff(p)) /\ WF_vars(RoundApply(p)) /\ WF_vars(RoundPush(p))
-            /\ WF_vars(\E t \in tasks : TreeSync(t))
+            /\ WF_vars(TreeSyncAny)
 Spec     == Init /\ [][Next]_vars
 LiveSpec == Spec /\ Fairness
 
